@@ -383,6 +383,7 @@ Proof. exact leaves_justified_subroutine_free. Qed.
 
 Print Assumptions C13_single_contract_side_condition_is_reachability.
 
+(* ------------------------------------------------------------------------------------------------------------
    Extension (group-configuration reading regenerated): tools/translate_groupinit.py -> Gen/GroupInitGen.v,
    Lemmas/GroupInitGenLemmas.v *)
 From Coq Require Import List String NArith ZArith Bool Arith.
